@@ -103,6 +103,10 @@ def judge(case, request, res, key_prefix, features="", detail=None, coarse=False
 
     def violation(key, what, **kw):
         kw.update(detail)
+        if coarse:
+            # labelled hostile class: the finding is the class itself, whatever the symptom
+            kw["symptom_key"] = key
+            key = f"{key_prefix}|{features}"
         _v(key, what, **kw)
     res = _Proxy(res, violation)
     before_tree = treesnap.snap(case.root)
